@@ -73,6 +73,6 @@ Spec == Init /\ [][Next]_vars
 Finished == m.st # "run" \/ fuel = 0
 Emit == Finished => PrintT(ToJson([tag |-> "CASE", prog |-> prog, st |-> IF m.st = "run" THEN "Fuel" ELSE m.st,
                                    why |-> IF m.st \in {"Unspecified", "Unmodelled"} THEN m.e[2] ELSE "",
-                                   out |-> m.out, ev |-> <<>>]))
+                                   out |-> m.out, used |-> m.used, ev |-> <<>>]))
 MachineOk == DoneClean(m) /\ EnvWellFormed(m)
 =============================================================================
